@@ -115,7 +115,14 @@ func (g *gen) docVal(p int) DocVal {
 		v.On = bp(n%2 == 0)
 	}
 	if g.pct(p) {
-		v.WaitNS = i64p(int64(n) * int64(time.Second))
+		d := int64(n) * int64(time.Second)
+		switch g.r.IntN(4) {
+		case 0:
+			d = -d // negative
+		case 1:
+			d += 250 * int64(time.Millisecond) // fractional seconds when written as a string
+		}
+		v.WaitNS = i64p(d)
 		v.WaitAsInt = g.pct(40)
 	}
 	if g.pct(p) {
